@@ -726,6 +726,9 @@ impl<'c, K: CtrlKind> MultiDispatchController<'c> for HMulti<K> {
 
 pub trait StaticKind: Send + 'static {
     type Data<'c>: SystemData<'c>;
+    /// read every member, overwrite every exclusively held one with a value derived from `h`;
+    /// returns the values seen
+    fn touch(data: &mut Self::Data<'_>, h: u64) -> Vec<u64>;
 }
 pub struct SUnit;
 pub struct SReadA;
@@ -736,24 +739,57 @@ pub struct SReadExpectA;
 pub struct SReadAWriteC;
 impl StaticKind for SUnit {
     type Data<'c> = ();
+    fn touch(_: &mut (), _: u64) -> Vec<u64> {
+        vec![]
+    }
 }
 impl StaticKind for SReadA {
     type Data<'c> = Read<'c, Cell0>;
+    fn touch(d: &mut Read<'_, Cell0>, _: u64) -> Vec<u64> {
+        vec![d.0]
+    }
 }
 impl StaticKind for SWriteC {
     type Data<'c> = Write<'c, Cell1>;
+    fn touch(d: &mut Write<'_, Cell1>, h: u64) -> Vec<u64> {
+        let old = d.0;
+        d.0 = old.wrapping_mul(P).wrapping_add(h);
+        vec![old]
+    }
 }
 impl StaticKind for SOptReadA {
     type Data<'c> = Option<Read<'c, Cell0>>;
+    fn touch(d: &mut Option<Read<'_, Cell0>>, _: u64) -> Vec<u64> {
+        d.iter().map(|x| x.0).collect()
+    }
 }
 impl StaticKind for SOptWriteC {
     type Data<'c> = Option<Write<'c, Cell1>>;
+    fn touch(d: &mut Option<Write<'_, Cell1>>, h: u64) -> Vec<u64> {
+        match d {
+            Some(x) => {
+                let old = x.0;
+                x.0 = old.wrapping_mul(P).wrapping_add(h);
+                vec![old]
+            }
+            None => vec![],
+        }
+    }
 }
 impl StaticKind for SReadExpectA {
     type Data<'c> = shred::ReadExpect<'c, Cell0>;
+    fn touch(d: &mut shred::ReadExpect<'_, Cell0>, _: u64) -> Vec<u64> {
+        vec![d.0]
+    }
 }
 impl StaticKind for SReadAWriteC {
     type Data<'c> = (Read<'c, Cell0>, Write<'c, Cell1>);
+    fn touch(d: &mut (Read<'_, Cell0>, Write<'_, Cell1>), h: u64) -> Vec<u64> {
+        let a = d.0 .0;
+        let old = d.1 .0;
+        d.1 .0 = old.wrapping_mul(P).wrapping_add(mix(h, a));
+        vec![a, old]
+    }
 }
 
 /// A system with statically typed data; `setup` is deliberately NOT overridden (the default
@@ -769,12 +805,37 @@ impl<'a, K: StaticKind> System<'a> for SSys<K> {
     type SystemData = K::Data<'a>;
 
     fn run(&mut self, data: Self::SystemData) {
-        drop(data);
+        let mut data = data;
         if self.ctx.is_ident() {
+            drop(data);
             self.ctx.log(Ev::Ident, self.id, 0);
             return;
         }
-        self.ctx.runs.lock().unwrap()[self.id] += 1;
+        // the library has already fetched `data`; from here on the protocol is the one of `HSys`
+        let ctx = self.ctx.clone();
+        let id = self.id;
+        ctx.runs.lock().unwrap()[id] += 1;
+        ctx.log(Ev::FetchBegin, id, 0);
+        ctx.log(Ev::Fetched, id, 0);
+        sched_point();
+        let cnt = {
+            let mut l = ctx.local.lock().unwrap();
+            l[id] += 1;
+            l[id]
+        };
+        let seen = K::touch(&mut data, mix(id as u64 + 1, cnt));
+        {
+            let mut o = ctx.obs.lock().unwrap();
+            let mut oh = mix(0x51, cnt);
+            for v in seen {
+                oh = mix(oh, v);
+            }
+            o[id].push(oh);
+        }
+        sched_point();
+        drop(data);
+        ctx.log(Ev::Release, id, 0);
+        sched_point();
     }
 
     fn running_time(&self) -> RunningTime {
